@@ -174,11 +174,14 @@ func (w *c19World) snapshotStates(md []byte) map[string]chanState {
 func (w *c19World) pickMetadata() []byte {
 	if w.rng.Chance(35) {
 		// generated valid list over the known channels
-		n := w.rng.Intn(4)
+		n := w.rng.Intn(5)
 		var parts []string
 		for i := 0; i < n; i++ {
 			pc := mon.Pick(w.rng, w.channels)
 			parts = append(parts, fmt.Sprintf(`{"port_id":%q,"channel_id":%q}`, pc.PortID, pc.ChannelID))
+			if i == 0 && w.rng.Chance(35) {
+				parts = append(parts, parts[0]) // the same channel listed twice in a row
+			}
 		}
 		return []byte(`{"perm_channels":[` + strings.Join(parts, ",") + `]}`)
 	}
@@ -236,7 +239,7 @@ func (w *c19World) opUpdateChallenger() {
 	}
 	l1 := w.env.L1
 	r := w.env.Bridges[id]
-	nc := sim.NewAccount(fmt.Sprintf("c19chal%d", w.rng.Intn(6)))
+	nc := sim.NewAccount(fmt.Sprintf("c19chal%d", w.rng.Intn(4))) // the same few challengers as at creation: shared channels change hands repeatedly
 	before := l1.Perm.All(l1.Ctx)
 	signer := mon.Pick(w.rng, []string{r.Challenger.String(), l1.Gov})
 	res := l1.Deliver(ophosttypes.NewMsgUpdateChallenger(signer, id, nc.String()))
@@ -293,7 +296,7 @@ func checkC19(run *mon.Run, rng *mon.Rand, thorough bool) {
 	for _, c := range []string{"C19.unparsable_metadata_touches_nothing", "C19.grant_conditions_enforced", "C19.exactly_listed_channels_granted", "C19.challenger_change_hands_over_listed_channels"} {
 		run.Declare(c, 10)
 	}
-	hist := pick(thorough, 20, 300)
+	hist := pick(thorough, 80, 600)
 	steps := pick(thorough, 150, 400)
 	feat := map[string]int{}
 	for h := 0; h < hist && !run.TooMany(); h++ {
